@@ -29,6 +29,30 @@ def gen_pairs(R, n, ops=GC.OPS, locals_=True, maxg=3, maxc=3):
         out.append(c)
     return out
 
+def edge_text(rng):
+    """constraints whose bounds sit exactly on the edges the printer special-cases: the first dev release (or the bare release) of a
+    release and of its wildcard successor, with every inclusivity combination, as a range and as a two-member union"""
+    ep = rng.choice(["", "", "", "1!"])
+    b = rng.choice(GC.BASES); parts = b.split(".")
+    nxt = ".".join(parts[:-1] + [str(int(parts[-1]) + 1)])
+    if rng.random() < 0.3 and len(parts) > 1:      # 1.2.* is also bounded by 1.3 written as 1.3.0
+        nxt += ".0"
+    lo = ep + b + rng.choice([".dev0", ".dev0", ".dev0", "", ".post1.dev0", "a0"])
+    hi = ep + nxt + rng.choice([".dev0", ".dev0", ".dev0", "", ".dev1"])
+    le, ge = rng.choice(["<", "<="]), rng.choice([">", ">="])
+    return rng.choice([f"{le}{lo} || {ge}{hi}", f"{le}{lo} || {ge}{hi}", f"{ge}{lo},{le}{hi}", f"{ge}{hi} || {le}{lo}",
+                       f"!={ep}{b}.*", f"=={ep}{b}.*", f"{le}{lo} || {ge}{hi} || =={hi}"])
+
+def edge_pairs(R, n):
+    rng = R.rng; out = []
+    for _ in range(n):
+        a = edge_text(rng)
+        b = edge_text(rng) if rng.random() < 0.5 else GC.gen_constraint(rng, GC.gen_pool(rng), GC.OPS, 2, 2)
+        ca, ga = I.parse_with_groups(a); cb, gb = I.parse_with_groups(b)
+        c = Case(); c.a, c.b, c.ca, c.cb, c.ga, c.gb, c.pool = a, b, ca, cb, ga, gb, []
+        out.append(c)
+    return out
+
 def model_ok(c):
     return I.spec_ok(c.ga) and I.spec_ok(c.gb)
 
